@@ -43,6 +43,10 @@ func main() {
 	manifest := flag.Bool("manifest", false, "print MANIFEST.json for the registered properties and exit")
 	dumpfn := flag.String("dumpfn", "", "debug: pkg:func to dump SSA of")
 	flag.Parse()
+	if *dumpfn == "LOOPS" {
+		debugLoops(loadWorld(*repo))
+		return
+	}
 	if *dumpfn == "LIST" {
 		w := loadWorld(*repo)
 		for _, f := range w.RepoFuncs() {
@@ -137,4 +141,15 @@ func main() {
 		}
 	}
 	os.Exit(exit)
+}
+
+func debugLoops(w *World) {
+	for _, fn := range w.RepoFuncs("compose", "schema", "internal", "flow", "callbacks", "components") {
+		for _, ex := range earlyExits(fn) {
+			if ex.errExit {
+				continue
+			}
+			fmt.Printf("%s | %s | exit at %s\n", w.fname(fn), ex.loop.what, w.pos(exitPos(ex)))
+		}
+	}
 }
